@@ -79,6 +79,8 @@ fn check_loops_src(acc: &mut Acc, sub: &str, rank: u64, input: &[u8], po: &PO, a
 
 struct W<'a> {
     fails: &'a mut Vec<(String, String)>,
+    /// how many owned copies of sub-datums may still be walked (bounds the work per case)
+    owned_walks: usize,
 }
 
 /// Walk a datum reference and the plain value in lockstep with every accessor.
@@ -100,6 +102,11 @@ fn walk(w: &mut W, r: Ref, v: &Value, path: String, depth: usize) {
     let owned = Datum::from(r);
     if owned.value() != v || owned.span() != r.span() {
         w.fails.push(("Datum::from(Ref)".into(), format!("{}: the owned copy differs", path)));
+    }
+    // the owned copy (Datum::from(Ref), which clones the span tree) exposes the same structure
+    if w.owned_walks > 0 && !path.contains('~') {
+        w.owned_walks -= 1;
+        walk(w, owned.as_ref(), v, format!("{}~owned", path), depth + 1);
     }
     let back: Value = owned.clone().into();
     if back != *v {
@@ -188,8 +195,13 @@ fn check_accessors(acc: &mut Acc, sub: &str, rank: u64, input: &[u8], po: &PO) {
     acc.nontrivial += 1;
     let mut fails = Vec::new();
     let r = guard(|| {
-        let mut w = W { fails: &mut fails };
+        let mut w = W { fails: &mut fails, owned_walks: 24 };
         walk(&mut w, d.as_ref(), &v, "root".into(), 0);
+        // a clone of the whole datum exposes the same structure and equals the original
+        let c = d.clone();
+        w.owned_walks = 0;
+        walk(&mut w, c.as_ref(), &v, "root~clone".into(), 0);
+
         // the Datum-level conveniences equal the Ref-level ones
         if d.list_iter().is_some() != d.as_ref().list_iter().is_some() || d.vector_iter().is_some() != d.as_ref().vector_iter().is_some() {
             w.fails.push(("Datum::list_iter".into(), "Datum-level and Ref-level iterators differ in presence".into()));
